@@ -4,6 +4,7 @@ change arrived (log written by tools/stage4.sh: /var/tmp/wave4.log), before any 
 import json, os, re, sys
 V = os.path.dirname(os.path.dirname(os.path.abspath(__file__)))
 log = sys.argv[1] if len(sys.argv) > 1 else "/var/tmp/wave4.log"
+WAVE = int(sys.argv[2]) if len(sys.argv) > 2 else 4
 first = {}
 for l in open(log):
     m = re.match(r"(C\d\d-\d+): (.*)", l)
@@ -22,6 +23,6 @@ for sid, v in sorted(first.items()):
     else:
         fv = "caught with a failing input by the check as it was when the change arrived"
     meta["first_verdict"] = fv
-    meta["wave"] = 4
+    meta["wave"] = WAVE
     json.dump(meta, open(p, "w"), indent=1)
     print(sid, fv[:60])
